@@ -152,7 +152,7 @@ Qed.
 Lemma unregister_found st k ch now s :
   aget k (d_svcs st) = Some s ->
   unregister st k ch now =
-  (mkD (d_intfs st) (d_regs st) (adel k (d_svcs st))
+  (mkD (d_intfs st) (forget_regs (s_full s) (d_regs st)) (adel k (d_svcs st))
        (d_retrans st ++ map (resend_of now) (goodbyes_of st s)) (d_mon st) (d_dead st) (d_os st) (d_sel st),
    map send_of (goodbyes_of st s) ++ [OReply ch true]).
 Proof. intros H. unfold unregister. rewrite H. reflexivity. Qed.
@@ -183,11 +183,13 @@ Proof.
   - rewrite (unregister_not_found _ _ _ _ G). reflexivity.
 Qed.
 
-(* the service is gone afterwards, every other service is untouched, registries are untouched *)
+(* the service is gone afterwards, every other service and every interface is untouched; the
+   registries are untouched on NotFound and forget the service's own names on OK (fix d685fcf) *)
 Lemma unregister_frame st k ch now :
   let st' := fst (unregister st k ch now) in
   (forall k', k' <> k -> aget k' (d_svcs st') = aget k' (d_svcs st)) /\
-  d_regs st' = d_regs st /\ d_intfs st' = d_intfs st /\
+  d_regs st' = match aget k (d_svcs st) with Some s => forget_regs (s_full s) (d_regs st) | None => d_regs st end /\
+  d_intfs st' = d_intfs st /\
   (NoDup (keys (d_svcs st)) -> aget k (d_svcs st') = None).
 Proof.
   destruct (aget k (d_svcs st)) as [s|] eqn:G.
